@@ -378,6 +378,16 @@ def band_start(rep, prog, rule):
     rep.floor(rule, "slice-based splits by height", n, 3)
 
 
+def _opaque(prog, e):
+    if not isinstance(e, tuple) or not e:
+        return False
+    if e[0] in ("call", "callat"):
+        res = e[4] if e[0] == "callat" else e[3]
+        if isinstance(res, str) and res in prog.fns:
+            return True
+    return any(_opaque(prog, x) for x in e if isinstance(x, tuple))
+
+
 def offsets(rep, prog, rule):
     rep.rule(rule, "a cropped view forwards (start + own offset on the split axis, size, "
              "num_parts) to the wrapped view's split and re-wraps every part with its own offset "
@@ -397,9 +407,10 @@ def offsets(rep, prog, rule):
             rep.unk(rule, key, f.loc, "%d inner %s calls" % (len(inner), m))
             continue
         c = inner[0]
-        a_start = canon(sym.operand(c.args[1]))
-        a_size = canon(sym.operand(c.args[2]))
-        a_parts = canon(sym.operand(c.args[3]))
+        from ..engines.validators import resolve_helpers
+        a_start = canon(resolve_helpers(prog, sym.operand(c.args[1])))
+        a_size = canon(resolve_helpers(prog, sym.operand(c.args[2])))
+        a_parts = canon(resolve_helpers(prog, sym.operand(c.args[3])))
         start = ("param", f.param_index(START[axis]), START[axis])
         own = ("field", ("param", 1, "self"), POS_FIELD[axis])
         other = ("field", ("param", 1, "self"), POS_FIELD["width" if axis == "height" else "height"])
@@ -415,6 +426,10 @@ def offsets(rep, prog, rule):
         elif a_start == start:
             rep.bad(rule, key + "|forward", c.at, "the inner split starts at %s without the "
                     "view's own offset self.%s" % (fmt(a_start), POS_FIELD[axis]))
+        elif any(_opaque(prog, x) for x in (a_start, a_size, a_parts)):
+            rep.unk(rule, key + "|forward", c.at, "inner.%s(%s, ..) is computed by a helper that was not "
+                    "resolved to an expression (C14.start-used still demands that the start reaches "
+                    "it)" % (m, fmt(a_start)[:80]))
         else:
             rep.bad(rule, key + "|forward", c.at, "inner.%s(%s, %s, %s) does not forward "
                     "(start + self.%s, %s, num_parts)" % (m, fmt(a_start), fmt(a_size),
